@@ -389,7 +389,11 @@ func c14Triple(r *Rand) (int64, int64, int64) {
 		// inside the range (span computed in uint64 to avoid overflow)
 		if mx > mn {
 			span := uint64(mx) - uint64(mn)
-			v = int64(uint64(mn) + r.U64()%(span+1))
+			if span == math.MaxUint64 {
+				v = int64(r.U64())
+			} else {
+				v = int64(uint64(mn) + r.U64()%(span+1))
+			}
 		} else {
 			v = mn
 		}
